@@ -16,7 +16,10 @@ from .models.sqlmodel import SqlModelCodeGenerator
 try:
     import ruamel.yaml as yaml
 
-    yaml_load = yaml.YAML(typ='safe', pure=True).load
+
+    def yaml_load(stream):
+        # A YAML() object keeps the state of the document it is parsing: use a fresh one per file (threads share this module)
+        return yaml.YAML(typ='safe', pure=True).load(stream)
 except ImportError:
     try:
         import yaml
